@@ -1,5 +1,6 @@
 import MalVerif.Py.AbsModel
 import MalVerif.Model.Serial
+import MalVerif.Py.PyInt
 /-!
 # Prelude of the translated instance-model serialisation (`translators/py2lean_mserial.py`) — C07
 
@@ -121,8 +122,24 @@ def pyStrOptStr (x : Option String) : String := match x with | some v => v | non
 /-- a dictionary key made from an `Optional[int]` id (`None` only for an attachment that was never added) -/
 def keyOfOptInt (x : Option Int) : Key := match x with | some i => .i i | none => .s "None"
 
-/-- `int(key)`: `ValueError` for a string that is not a decimal integer -/
-def keyInt (k : Key) : Except PyErr Int := match k.toInt? with | some i => .ok i | none => .error .valueError
+/-- the error of `int(key)` on a key `Key.toInt?` does not read: CPython's `int` strips white space, accepts a leading `+`
+and Unicode digits (`int(" 1")`, `int("+1")`, `int("٥")` succeed) — such a text (`pyIntLenient`, `Py/PyInt.lean`) is **not
+modelled** (`PyErr.other`: Python may well load the file); any other text is a `ValueError`, as in Python -/
+def keyIntErr : Key → PyErr
+  | .s t => if pyIntLenient t then .other else .valueError
+  | .i _ => .valueError
+/-- `int(key)`: the number `Key.toInt?` reads (an `int`; ASCII digits with an optional `-`), as Python; otherwise
+`keyIntErr` (`ValueError`, or not modelled) -/
+def keyInt (k : Key) : Except PyErr Int := match k.toInt? with | some i => .ok i | none => .error (keyIntErr k)
+
+@[simp] theorem keyInt_of_toInt {k : Key} {i : Int} (h : k.toInt? = some i) : keyInt k = .ok i := by simp [keyInt, h]
+theorem keyInt_none_plain {k : Key} (h : k.toInt? = none) (hp : PyInt.keyPlain k = true) : keyInt k = .error .valueError := by
+  cases k with
+  | i n => simp [Key.toInt?] at h
+  | s t =>
+    simp only [Key.toInt?] at h
+    have hl : pyIntLenient t = false := by simpa [PyInt.keyPlain, h] using hp
+    simp [keyInt, Key.toInt?, h, keyIntErr, hl]
 
 /-- a list of `int` stored as the members of an association field -/
 def targetsOfInts (l : List Int) : PyTargets := .list (l.map Key.i)
